@@ -15,11 +15,15 @@ LEVEL_TEXT = ('Lean 4 theorems, for all input fields/offsets, samplings, integer
               '(stated at C/R by composing with C01 dft2_eq_defining_sum) with alpha = dx·du/(λ z os) per axis, and exactly zero elsewhere; '
               'shape/prop_shape/mask only select samples; oversampling only divides alpha and multiplies the grid; wavelength, focal length, '
               'du/oversample and the flipped plane type are carried. Window arithmetic, _dft_alpha, its call site, shape·oversample and the '
-              'metadata hand-over are regenerated from propagate.py/extent.py/field.py on every run; the dft2 call and np.fix are a hand '
-              'model checked against the implementation (the code\'s own fix/sub split is observed, not recomputed).')
-LEVEL_NOTE = ('Partial: per-field sums are not merged into one sum over the input-plane array when fields carry different shifts (for a '
-              'common shift the oracle checks it); lentil.boundary (mask bounding box) enters as a parameter (differential only). '
-              'Trusted: Lean kernel, py2lean subset semantics, NumPy dot/exp/broadcast/fix as modelled, generator coverage.')
+              'metadata hand-over and every argument of the dft2 call and of the output Field are regenerated from propagate.py/extent.py/field.py '
+              'on every run; np.fix is observed: the code\'s own fix/sub split is read off its array_extent/dft2 calls, a case whose split cannot be '
+              'observed, does not add up to the field\'s shift or has |sub| >= 1 breaks the correspondence. For a common shift the sum over fields is '
+              'the Fraunhofer sum of Wavefront.field of the input (propagateDft_common_shift).')
+LEVEL_NOTE = ('Partial: when fields carry different shifts the result stays a sum of per-field Fraunhofer sums (each with its own window); '
+              'lentil.boundary (mask bounding box), the shape/prop_shape defaults and the mask/no-mask choice of out_extent enter as parameters of the '
+              'hand model (differential only); the window centre is any integer within one sample of the shift (np.fix itself is not modelled; '
+              'oversample also scales the shift, which is C04\'s Field.shift). '
+              'Trusted: Lean kernel, py2lean subset semantics, NumPy dot/exp/broadcast as modelled, generator coverage.')
 TECHNIQUE = 'Lean 4 proof (omega + ring) over translator-regenerated window kernel + Float model with differential correspondence'
 GEN = ['Extent', 'FieldIdx', 'Window', 'PropagateMeta', 'PlaneType']
 OPS = ['C02']
@@ -31,8 +35,8 @@ RULE = ('cases: pupils 1..6 x 1..6 (even/odd/non-square, off-centre support, 1..
         ' Extremes stream (5% of quick, 240 cases in search/thorough): every length scaled by 1e-9..1e3, per-axis pixel scales differing by a relative 1e-5..5e-3 only, large (64..100) critically sampled pupils with an odd dimension (oracle only).')
 TRUSTED = ['np.dot(E1.dot(f), E2), np.exp, np.outer, np.fix, np.broadcast_to as modelled in Model/Fourier.lean and Model/Propagate.lean',
            'lentil.fourier.dft2 = Model dft2 (checked by C01); lentil.field.insert = Model insertArr (checked by C06)']
-UNPROVEN = ['lentil.boundary(mask) = bounding rows/cols of the support: parameter of the theorems, differential only',
-            'merging the per-field Fraunhofer sums into the sum over Wavefront.field of the input (C01 dft2_subarray_offset/dft2_add): oracle-checked']
+UNPROVEN = ['lentil.boundary(mask) = bounding rows/cols of the support, shape/prop_shape defaults, mask/no-mask branch: parameters of the model, differential only',
+            'np.fix: the theorem holds for every integer split; that the code picks trunc(shift) is observed, not proved']
 ASSUMPTIONS = ['shape >= 1, prop_shape >= 1, non-empty mask; the shift split fix+sub is arbitrary in the theorem (np.fix in the code)',
                'generated tilt shifts keep a fractional part in [0.05,0.95] so that np.fix is insensitive to rounding']
 
@@ -70,7 +74,7 @@ def _wz(c):
 def _stage(rng, in_shape, dx, tier, allow_tilt=True, wl=WL, z=Z):
     """parameters of one propagate_dft call given the input wavefront's shape and pixelscale"""
     WL, Z = wl, z
-    os_ = int(rng.integers(1, 4))
+    os_ = int(rng.integers(1, 4)) if rng.integers(0, 8) else 4
     big = 14 if tier != 'thorough' else 20
     t = rng.integers(0, 5)
     if t == 0: shape = None
@@ -104,7 +108,9 @@ def _stage(rng, in_shape, dx, tier, allow_tilt=True, wl=WL, z=Z):
         # support values: 0/1 ints, booleans, or positive floats of any size (the bounding box is that of the support)
         kind = ['int', 'bool', 'float'][int(rng.integers(0, 3))]
         bits = [int(x) for x in mk.ravel()]
-        if kind == 'float': bits = [float(b) * float(rng.choice([0.25, 1.0, 3.0])) for b in bits]
+        if kind == 'float':
+            # positive support of any size; entries at or below the threshold 0 (zero, negative) are not support
+            bits = [float(b) * float(rng.choice([0.25, 1.0, 3.0])) if b else float(rng.choice([0.0, 0.0, -0.5, -2.0])) for b in bits]
         mask = {'shape': [int(S[0]), int(S[1])], 'bits': bits, 'dtype': kind}
     tilts = []
     if allow_tilt and rng.integers(0, 3) == 0:
@@ -168,7 +174,7 @@ def _case(rng, tier, k, scale=1.0, near_equal=False):
         in_shape = [sh[0] * st0['os'], sh[1] * st0['os']]
         if max(in_shape) <= 10:
             dx1 = [st0['du'][0] / st0['os'], st0['du'][1] / st0['os']]
-            st1 = _stage(rng, in_shape, dx1, tier, allow_tilt=False, wl=wl, z=z)
+            st1 = _stage(rng, in_shape, dx1, tier, allow_tilt=bool(rng.integers(0, 2)), wl=wl, z=z)
             if st1['shape'] is None and max(in_shape) * st1['os'] > 14: st1['shape'] = [5, 6]; st1['mask'] = None; st1['prop_shape'] = None
             _fix_tilts(st1)
             c['stages'].append(st1)
@@ -340,7 +346,24 @@ def _arr(d):
 def _tol(io):
     return 1e-9 * (1.0 + float(np.sum(np.abs(np.array(io['in']['canvas']['re']) + 1j * np.array(io['in']['canvas']['im'])))))
 
+def _check_observed(io):
+    """the split the model is fed is the one the code itself used: observation must have worked, the two parts must add up to
+    the field's shift, and the offset handed to dft2 must be the field's offset"""
+    if 'exc' in io: return None
+    if not io.get('observed_split'):
+        return ('could not observe the fix/sub-pixel split of propagate_dft (it no longer calls lentil.extent.array_extent / lentil.fourier.dft2 '
+                'through the module attributes, or fix_shift is not integral): the tie of the shift split is broken')
+    for k, f in enumerate(io['in']['fields']):
+        for a in (0, 1):
+            if abs(f['fix'][a] + f['sub'][a] - f['shift'][a]) > 1e-9 * (1 + abs(f['shift'][a])):
+                return f"field {k}: integer part {f['fix']} + sub-pixel part {f['sub']} handed to dft2 is not the field's shift {f['shift']}"
+            if abs(f['sub'][a]) >= 1 + 1e-9: return f"field {k}: sub-pixel part {f['sub']} of the shift split is not below one sample"
+        if 'dft_offset' in f and f['dft_offset'] != f['off']: return f"field {k}: dft2 was called with offset {f['dft_offset']}, the field's offset is {f['off']}"
+    return None
+
 def compare(c, io, mo):
+    r = _check_observed(io)
+    if r: return r
     if c.get('nomodel'): return None
     m = mo[0]
     if 'exc' in io: return f"implementation raised {io['exc']}: {io.get('msg')} (model has no refusal here)"
